@@ -236,6 +236,13 @@ theorem shiftF_keeps_iff (rnd : Rat → Rat) (g : Grid) (b : List Rat) (hl : b.l
   simp only [Grid.shiftR, true_and]
   exact Coords.shiftR_eq_self_iff rnd g.coords b hl
 
+/-- … in the decidable form the driver evaluates (`absorbs i b` with `rnd = roundF64`, compared with
+`g.shifted(b) == g` / "the in-place shift left every stored value as it was" on the real code): the
+shifted grid equals the original iff the model predicts that every sum is absorbed. -/
+theorem shiftF_keeps_iff_absorbs (rnd : Rat → Rat) (g : Grid) (b : List Rat) (hl : b.length = g.coords.ndim) (hw : g.coords.WF) :
+    (g.shiftR rnd b).eq g = true ↔ g.coords.absorbs rnd b = true := by
+  rw [shiftF_keeps_iff rnd g b hl hw, Coords.absorbs_iff]
+
 /-- with exact arithmetic (`rnd = id`) the float shift is the exact shift of `shift_changes` -/
 theorem shiftF_exact (g : Grid) (b : List Rat) : g.shiftR id b = g.shift b := by
   simp only [Grid.shiftR, Grid.shift, Coords.shiftR_id]
